@@ -476,6 +476,11 @@ class Graph:
         pylib.FN_TABLE.clear()
         for name, spec in prog.get("fns", []):
             pylib.FN_TABLE[name] = pylib.make_fn(name, spec)
+            if spec.get("node"):
+                # a function that RETURNS a labrea node (the model's value for it is the node's printed name)
+                obj = Option(spec["node"]["key"]) if spec["node"]["k"] == "option" else Value(dec(spec["node"].get("v")))
+                KEEP.append(obj)
+                pylib.FN_TABLE[name].fn = (lambda *a, _o=obj, **k: _o)
 
     def reg(self, obj, nid):
         if nid and not self.nodes.get(nid, {}).get("h"):
@@ -537,7 +542,12 @@ class Graph:
             mn = n.get("dom")
             if mn is not None:
                 m = self.nodes[mn]
-                if m["k"] == "value" and not m.get("wrap"):
+                if m["k"] == "value" and isinstance(m["v"], dict) and m["v"].get("lf"):
+                    # a helper of labrea.functions as the domain (`F.one_of(...)`, `F.none_of(...)`): for the model the
+                    # predicate it documents
+                    import labrea.functions as _F
+                    kw["domain"] = getattr(_F, m["v"]["lf"])(*[dec(x) for x in m["v"]["lf_args"]])
+                elif m["k"] == "value" and not m.get("wrap"):
                     kw["domain"] = dec(m["v"])
                 else:
                     kw["domain"] = self.node(mn)
@@ -914,6 +924,9 @@ class Graph:
         if dsid in self.ds_objs:
             return self.ds_objs[dsid]
         d = self.dss[dsid]
+        if d.get("lazy"):
+            # a derived dataset exists once its `with_options` step has run: a program that uses it earlier is malformed
+            raise RuntimeError(f"derived dataset {dsid} used before the step that derives it")
         o = self.ovs[d["ov"]]
         kwargs = {}
         dn = self.nodes[o["dispatch"]]
